@@ -121,7 +121,7 @@ fn classify(msg: &str) -> (String, u32) {
     }
 }
 
-fn call(reg: &PortableRegistry, id: u32, seed: u64) -> Out {
+pub(crate) fn call(reg: &PortableRegistry, id: u32, seed: u64) -> Out {
     match std::panic::catch_unwind(std::panic::AssertUnwindSafe(|| scale_value_from_seed(id, reg, seed))) {
         Ok(Ok(v)) => Out::Ok(v),
         Ok(Err(e)) => {
@@ -134,7 +134,7 @@ fn call(reg: &PortableRegistry, id: u32, seed: u64) -> Out {
 }
 
 /// the real round trip of scale-value: encode against the same id, decode consuming all input, equal value
-fn roundtrip(reg: &PortableRegistry, id: u32, v: &Value<()>) -> (bool, String) {
+pub(crate) fn roundtrip(reg: &PortableRegistry, id: u32, v: &Value<()>) -> (bool, String) {
     let r = std::panic::catch_unwind(std::panic::AssertUnwindSafe(|| {
         let mut buf: Vec<u8> = vec![];
         if let Err(e) = scale_value::scale::encode_as_type(v, id, reg, &mut buf) {
@@ -332,7 +332,7 @@ fn unfold_size(reg: &PortableRegistry, id: u32, path: &mut Vec<u32>, budget: &mu
 }
 
 /// number of words the run on (id, seed) consumes; None = too large a traversal (case skipped)
-fn words_needed(reg: &PortableRegistry, id: u32, seed: u64) -> Option<usize> {
+pub(crate) fn words_needed(reg: &PortableRegistry, id: u32, seed: u64) -> Option<usize> {
     let mut k = 256usize;
     loop {
         let ws = rngwords::words(seed, k);
